@@ -668,10 +668,10 @@ RR_REQS = [
                                          "</D:prop></D:sync-collection>" % _NS},
     {"m": "REPORT", "p": _C + "/", "xml": "<D:sync-collection %s><D:sync-token>0000000000000000000000000000000000000000</D:sync-token>"
                                          "<D:sync-level>1</D:sync-level><D:prop><D:getetag/></D:prop></D:sync-collection>" % _NS},
-    {"m": "REPORT", "p": _C + "/", "xml": "<C:calendar-multiget %s><D:prop><D:getetag/></D:prop><D:href>" % _NS + _C +
-                                         "/a.ics</D:href><D:href>" + _C + "/gone.ics</D:href><D:href>/user/contacts/ab/c.vcf</D:href>"
-                                         "</C:calendar-multiget>"},
-    {"m": "REPORT", "p": "/user/contacts/ab/", "xml": "<A:addressbook-multiget %s><D:prop><D:getetag/></D:prop><D:href>/user/contacts/ab/"
+    {"m": "REPORT", "p": _C + "/", "xml": "<C:calendar-multiget %s><D:prop><D:getetag/></D:prop><D:href>@P@" % _NS + _C +
+                                         "/a.ics</D:href><D:href>@P@" + _C + "/gone.ics</D:href><D:href>@P@/user/contacts/ab/c.vcf</D:href>"
+                                         "<D:href>/elsewhere" + _C + "/a.ics</D:href></C:calendar-multiget>"},
+    {"m": "REPORT", "p": "/user/contacts/ab/", "xml": "<A:addressbook-multiget %s><D:prop><D:getetag/></D:prop><D:href>@P@/user/contacts/ab/"
                                                       "c.vcf</D:href></A:addressbook-multiget>" % _NS},
     {"m": "PUT", "p": "/user/contacts/ab/n.vcf", "tok": "v9", "ct": "text/vcard"},
     {"m": "PUT", "p": "/user/contacts/ab/n.vcf", "tok": "!bad", "ct": "text/vcard"},
@@ -719,7 +719,11 @@ def _norm_response(rec, ids):
     return (rec["st"], tuple(sorted(hdr.items())), nb)
 
 
-def _model_raw_script(script):
+def _with_prefix(script, P):
+    return [dict(rq, xml=rq["xml"].replace("@P@", P)) if "xml" in rq else rq for rq in script]
+
+
+def _model_raw_script(script, script_name=""):
     """The same raw script through the REAL WSGI entry point over the MODEL world (nothing stubbed above the file
     system / dulwich / file-class boundary: real XML parsing and serialisation)."""
     import re
@@ -728,7 +732,7 @@ def _model_raw_script(script):
     app = mweb.make_app()
 
     def request(method, path, body=b"", ctype=None, headers=()):
-        env = mhttp.wsgi_environ(method, path, script_name="", headers=list(headers), body=body,
+        env = mhttp.wsgi_environ(method, path, script_name=script_name, headers=list(headers), body=body,
                                  content_type=ctype if ctype else "application/octet-stream")
         if not ctype:
             env.pop("CONTENT_TYPE", None)
@@ -769,7 +773,7 @@ def _model_raw_script(script):
     return res
 
 
-def _stub_script(script):
+def _stub_script(script, P=""):
     """The script once more through mweb.call - the entry the OTHER harnesses use, with XML handed over as element
     trees and answers taken before serialisation - to compare its status classes with the raw answers."""
     import re
@@ -782,7 +786,7 @@ def _stub_script(script):
         for k, v in rq.get("h", []):
             m = re.match(r"^(.*)\$ETAG\(([^)]*)\)(.*)$", v)
             if m:
-                cur = mweb.call(app, "HEAD", m.group(2), wsgi=True)
+                cur = mweb.call(app, "HEAD", m.group(2), wsgi=True, prefix=(P + "/"))
                 et = cur.header("ETag") if cur.status_class == "2xx" else '"none"'
                 v = m.group(1) + et + m.group(3)
             headers.append((k, v))
@@ -791,7 +795,7 @@ def _stub_script(script):
             kw = {"xml": ET_.fromstring(rq["xml"]), "content_type": rq.get("ct", "text/xml")}
         elif "tok" in rq:
             kw = {"body": rq["tok"].encode("latin-1"), "content_type": rq.get("ct")}
-        r = mweb.call(app, rq["m"], rq["p"], headers=headers, wsgi=True, **kw)
+        r = mweb.call(app, rq["m"], rq["p"], headers=headers, wsgi=True, prefix=(P + "/"), **kw)
         out.append(r.status_class)
     return out
 
@@ -819,15 +823,16 @@ def body_real_responses(r1, r2):
         import os
         import subprocess
         import xv
-        scripts = [[q1, q2, q3] for q3 in RR_REQS]
-        job = {"raw": True, "cal": {"a.ics": "xa", "b.ics": "xb"}, "ab": {"c.vcf": "v1"}, "scripts": scripts}
+        P = ctx.PART or ""  # SCRIPT_NAME of the WSGI deployment ("" or "/dav")
+        scripts = [_with_prefix([q1, q2, q3], P) for q3 in RR_REQS]
+        job = {"raw": True, "script_name": P, "cal": {"a.ics": "xa", "b.ics": "xb"}, "ab": {"c.vcf": "v1"}, "scripts": scripts}
         p = subprocess.run(["/venv/bin/python", os.path.join(os.path.dirname(__file__), "..", "real_e2e.py")],
                            input=json.dumps(job), capture_output=True, text=True, cwd=xv.REPO,
                            env={"PATH": os.environ.get("PATH", ""), "PYTHONPATH": xv.REPO}, timeout=900)
         if p.returncode != 0:
             raise RuntimeError("real stack driver failed: " + p.stderr[-600:])
         for script, real in zip(scripts, json.loads(p.stdout)):
-            model = _model_raw_script(script)
+            model = _model_raw_script(script, P)
             ids_r, ids_m = {}, {}
             for k, (rr, mr) in enumerate(zip(real, model)):
                 a, b = _norm_response(rr, ids_r), _norm_response(mr, ids_m)
@@ -836,7 +841,7 @@ def body_real_responses(r1, r2):
                         k, [(x["m"], x["p"]) for x in script], a, b)
                     return (False, "response-differs")
             # ... and the stubbed entry point of the other harnesses classifies every answer as the raw one
-            stub = _stub_script(script)
+            stub = _stub_script(script, P)
             raw = [_class_of(rr["st"]) for rr in real]
             if stub != raw:
                 ctx.LAST_EXC = "status classes through mweb.call %r != raw answers %r for %r" % (
@@ -933,8 +938,8 @@ HARNESSES = [
                      "xandikos.store.git.BareGitStore._import_one", "xandikos.store.git.TreeGitStore._import_one",
                      "xandikos.store.git.GitStore._check_duplicate", "xandikos.store.git.GitStore._scan_uids",
                      "xandikos.web.open_store_from_path"]),
-    Harness("real_responses", h_real_responses, body_real_responses, classes=[("same:PUT", None), ("same:PROPFIND", None)],
-            bounds=_B, budget={"quick": 150, "thorough": 1500}, per_path_timeout={"quick": 120, "thorough": 120},
+    Harness("real_responses", h_real_responses, body_real_responses, classes=[("same:PUT", ""), ("same:PUT", "/dav")],
+            parts={"quick": ["", "/dav"]}, bounds=_B, budget={"quick": 150, "thorough": 1500}, per_path_timeout={"quick": 120, "thorough": 120},
             twin_budget={"quick": 60, "thorough": 200},
             describe="full answers (status code, ETag / Location / Allow, XML bodies as trees, member bodies) of three-request "
                      "scripts from a menu of %d requests through the real WSGI entry point over the MODEL world and over REAL "
